@@ -350,7 +350,9 @@ an exporter operation sequence `exportOps mdPokes xs tags` where
  * the pokes are the `MD_Driver` constructor's and declare both clocks (`ClockPoked` 0x0c, 0x2c);
  * `xs` starts with ONE type-0 data block holding the used part of the wave rom and the DAC
    stream setup, and contains no other data block;
- * every stream start of `xs` addresses bytes of that block (`xsPcm 0 xs`);
+ * every stream start of `xs` plays (start, length) = the window `position + start`, `size` of
+   the sample header `wave_map` assigns to a PCM instrument (`IsPcmSample`), and addresses bytes
+   of that block (`xsPcm 0 xs`);
  * all side conditions of `ExportHyps` other than "the tags decode" hold — so `ExportHyps` holds
    exactly when every tag decodes. -/
 theorem C08_md_export_hyps (d : Data) (song : Song) (tags : Tags) (ops : List Op) (hb : BankOK d)
@@ -358,10 +360,12 @@ theorem C08_md_export_hyps (d : Data) (song : Song) (tags : Tags) (ops : List Op
     ∃ xs rest, ops = exportOps mdPokes xs tags ∧
       xs = XOp.datablock 0 (pcmBlock d) d.bank.rom.length 0 :: XOp.dacSetup 0 2 0 0x2a 0 :: rest ∧
       (∀ x ∈ rest, ∀ t p m o, x ≠ XOp.datablock t p m o) ∧
+      (∀ q ∈ xStarts rest, ∃ s, IsPcmSample d s ∧
+        q = (Wave.u32 (s.position + s.start) % 4294967296, s.size % 4294967296)) ∧
       ClockPoked mdPokes 0x0c ∧ ClockPoked mdPokes 0x2c ∧ xsPcm 0 xs = true ∧
       ((∀ t ∈ tags.toList, Decodable t) → ExportHyps 0x100 mdPokes xs tags) ∧
       ((∃ t ∈ tags.toList, ¬ Decodable t) → run 0x61 0x100 ops = .error .rangeError) := by
-  obtain ⟨rest, hops, hv, hd, hp, hnb⟩ := exportOps_x d song tags ops hb h
+  obtain ⟨rest, hops, hv, hd, hp, hnb, _, hst⟩ := exportOps_x d song tags ops hb h
   have hvalid : ∀ x ∈ XOp.datablock 0 (pcmBlock d) d.bank.rom.length 0 :: XOp.dacSetup 0 2 0 0x2a 0 :: rest, x.valid := by
     intro x hx
     rcases List.mem_cons.mp hx with rfl | hx
@@ -376,7 +380,7 @@ theorem C08_md_export_hyps (d : Data) (song : Song) (tags : Tags) (ops : List Op
     simpa [XOp.delayOf] using hd
   have hpk : ∀ p ∈ mdPokes, SafeOff 0x100 p.1 p.2.length := by
     simp [mdPokes, Tables.md_vgm_pokes, SafeOff, le16]
-  refine ⟨_, rest, hops, rfl, hnb, ⟨[(0x2c, le32 7670454)], 3579575, _, rfl, by decide, by simp [le16]⟩,
+  refine ⟨_, rest, hops, rfl, hnb, hst, ⟨[(0x2c, le32 7670454)], 3579575, _, rfl, by decide, by simp [le16]⟩,
     ⟨[], 7670454, _, rfl, by decide, by simp [le16]⟩, ?_, ?_, ?_⟩
   · simp only [xsPcm, if_true, Nat.zero_add, pcmBlock_length]; exact hp
   · intro htags
@@ -432,7 +436,7 @@ theorem C08_full (d : Data) (song : Song) (m : TagMap) (st : Stamps) (rs : List 
           xsPcm 0 xs = true ∧ run 0x61 0x100 ops = .ok f ∧ exportVgm d song tags = .ok f) ∧
       ((∃ t ∈ tags.toList, ¬ Decodable t) → exportVgm d song tags = .error .input) := by
     intro ops hops
-    obtain ⟨xs, rest, e1, _, _, _, _, hpcm, hy, hbad⟩ := C08_md_export_hyps d song tags ops hb hops
+    obtain ⟨xs, rest, e1, _, _, _, _, _, hpcm, hy, hbad⟩ := C08_md_export_hyps d song tags ops hb hops
     constructor
     · intro ht
       obtain ⟨f, hf⟩ := C08_no_indeterminate_byte 0x61 (hy ht)
@@ -486,5 +490,67 @@ theorem C08_full (d : Data) (song : Song) (m : TagMap) (st : Stamps) (rs : List 
         subst hs
         exact (C08_gd3_renders_tag t hv).2
       · rw [k2 h] at hf; cases hf
+
+open MdDriver in
+/-- pcm_windows_are_samples: in every file the export returns, the data bank a reader assembles
+is exactly the block `play_song` wrote (the used part of the wave rom), and every stream-start
+command addresses in it exactly the bytes `rom[position + start ..][.. size]` of the sample header
+that `wave_map` assigns to a PCM instrument of the song — the window whose content C14
+(`C14_inv_histories_partial`, `C14_tag_window_partial`) proves to be the instrument's sample. -/
+theorem C08_pcm_windows_are_samples (d : Data) (song : Song) (tags : Tags) (f : Bytes) (rs : List Alloc.Win)
+    (hbank : Wave.Inv d.bank rs) (h : exportVgm d song tags = .ok f) :
+    ∃ cs tail, streamIs f cs tail ∧ bankOf cs = pcmBlock d ∧
+      ∀ w ∈ streamWindows cs, ∃ s, IsPcmSample d s ∧ w = (Wave.Sample.win s).reads d.bank.rom := by
+  have hb := bankOK_of_inv d rs hbank
+  cases hops : MdDriver.exportOps d song tags with
+  | error e' => unfold exportVgm at h; rw [hops] at h; cases h
+  | ok ops =>
+    obtain ⟨xs, rest, e1, hxs, hnb, hst, _, _, _, hy, hbad⟩ := C08_md_export_hyps d song tags ops hb hops
+    have hrun : run 0x61 0x100 ops = .ok f := by
+      unfold exportVgm at h
+      rw [hops] at h
+      simp only at h
+      have e : run 0x61 0x100 ops = run Tables.vgm_export_version Tables.vgm_export_header_size ops := rfl
+      rw [e]
+      cases hr : run Tables.vgm_export_version Tables.vgm_export_header_size ops with
+      | error e => rw [hr] at h; cases e <;> cases h
+      | ok b => rw [hr] at h; cases h; rfl
+    have hdec : ∀ t ∈ tags.toList, Decodable t := by
+      intro t ht
+      exact Classical.byContradiction fun hn => by
+        rw [hbad ⟨t, ht, hn⟩] at hrun; cases hrun
+    have hyp := hy hdec
+    rw [e1] at hrun
+    have hsp := (C08_stream_parses hyp hrun).2
+    have hbk : xBank rest = [] := by
+      have : ∀ (l : List XOp), (∀ x ∈ l, ∀ t p m o, x ≠ XOp.datablock t p m o) → xBank l = [] := by
+        intro l
+        induction l with
+        | nil => intro _; rfl
+        | cons x r ih =>
+          intro hl
+          have ihr := ih (fun y hy => hl y (by simp [hy]))
+          cases x with
+          | datablock t p m o => exact absurd rfl (hl _ (by simp) t p m o)
+          | psg a => exact ihr
+          | ym a b c => exact ihr
+          | delay a => exact ihr
+          | setLoop => exact ihr
+          | dacSetup a b c e g => exact ihr
+          | dacStart a b c e => exact ihr
+          | dacStop a => exact ihr
+      exact this rest hnb
+    have hbank' : bankOf (expected 0 xs) = pcmBlock d := by
+      rw [bankOf_expected xs hyp.valid, hxs]
+      simp [xBank, hbk]
+    refine ⟨expected 0 xs, gd3Tail tags, hsp, hbank', ?_⟩
+    intro w hw
+    rw [streamWindows_eq, hbank', windowsIn_expected, hxs] at hw
+    simp only [xStarts, List.mem_map] at hw
+    obtain ⟨q, hq, rfl⟩ := hw
+    obtain ⟨s, hs, rfl⟩ := hst q hq
+    obtain ⟨ins, _, hidx⟩ := hs
+    refine ⟨s, ⟨ins, ‹_›, hidx⟩, ?_⟩
+    exact window_in_block d hb s (List.mem_of_getElem? hidx)
 
 end Ctrmml.Vgm
